@@ -189,6 +189,33 @@ func genIndep(tier string, rng *RNG, emit func(Case)) {
 		a := []byte(strings.Repeat(unit, 1+rng.Intn(300)))
 		emit(Case{Op: "pair", Args: []string{fmt.Sprint(rng.Intn(len(indepCfgs))), hx(a), hx([]byte(listBs[rng.Intn(len(listBs))]))}})
 	}
+	// state-sensitive shapes: every sequence of <= 4 block tokens as A against a fixed list of B whose rendering depends on
+	// parser state that A can leave behind (blank-line bookkeeping, empty list items, open fences, setext candidates,
+	// list-item offsets), and the other way round
+	toks := []string{"- ", "-", "a", "\n", "  ", "1. ", "> ", "```", "    ", "\n\n"}
+	sens := []string{"-\n  - b\n", "- a\n\n  b\n", "- a\n\n- b\n", "- a\n- b\n", "1.\n   2. b\n", "1. a\n\n   b\n", "- a\n\n      code\n", "> - a\n>\n>   b\n",
+		"```\nc\n```\n", "~~~\nc\n", "a\n===\n", "a\n---\n", "    code\n", "<div>\nx\n</div>\n", "-\n\n  a\n", "- \n  a\n", "*\n  * b\n", "+ a\n\n  > q\n",
+		"1) a\n2) b\n", "- a\n  ```\n  c\n  ```\n", "> a\nb\n", "a\n  b\n", "- a\n\n\n  b\n", "-\n-\n  - c\n", "- a\n\n  - b\n\n  c\n", "1.\n\n   a\n", "-\n  -\n    - c\n"}
+	var seqs []string
+	var trec func(cur string, d int)
+	trec = func(cur string, d int) {
+		if cur != "" {
+			seqs = append(seqs, cur)
+		}
+		if d == 4 {
+			return
+		}
+		for _, t := range toks {
+			trec(cur+t, d+1)
+		}
+	}
+	trec("", 0)
+	for i := 0; i < len(seqs); i++ {
+		for j, sb := range sens {
+			emit(Case{Op: "pair", Args: []string{fmt.Sprint((i + j) % len(indepCfgs)), hx([]byte(seqs[i])), hx([]byte(sb))}})
+			emit(Case{Op: "pair", Args: []string{fmt.Sprint((i + j) % len(indepCfgs)), hx([]byte(sb)), hx([]byte(seqs[i]))}})
+		}
+	}
 	for i := 0; i < n; i++ {
 		a := stripBytes(pool[rng.Intn(len(pool))], "[")
 		b := stripBytes(pool[rng.Intn(len(pool))], "[")
